@@ -382,7 +382,7 @@ def run(ctx):
             terms.append(g_branch_case(c, o))
         else:
             terms.append(g_process_case(c, o) if o["status"] == "ok" else f"CBranch [] None BSolve")
-    bad = ctx.coq_eval_cases("cases", "From Coq Require Import QArith.\nFrom PLV Require Import Num.ShiftRulesModel.", terms, "check_case", chunk=120)
+    bad = ctx.coq_eval_cases("cases", "From Coq Require Import QArith.\nFrom PLV Require Import Num.ShiftRulesModel.", terms, "check_case", chunk=250)
     for k in bad:
         i = tie_idx[k]
         c, o = cases[i], obs[i]
